@@ -47,6 +47,12 @@ Definition alternatives (mode : Z) (s : state) (extra : tree) : option (list fin
                                   | Running s1 _ | Finished s1 _ => map final_of_rs (run_alts s1)
                                   | _ => [final_of_rs r]
                                   end) (run_alts s))
+  (* PrintChar<c> for an arbitrary character c (given by its code point): the character is appended to the output,
+     nothing else changes *)
+  | 3 => match extra with
+         | L [A c] => Some [FOk (add_out [TChar c] s)]
+         | _ => None
+         end
   | 1 => olet p := dec_prog extra in
          Some [final_of_outcome (perform_prog code_prec p s);
                final_of_outcome (perform_prog (fun _ => true) p s);
